@@ -380,3 +380,36 @@ func (m *MemDb) VerifSubscribers() map[string][2]int {
 	}
 	return out
 }
+
+// VerifTreeRun drives the AVL tree directly: inserts one member per score (member i is named
+// "m<i>"), then deletes the members listed in del (indexes into scores), checking the structural
+// invariants after every single operation.  Returns the first violations found (nil = none).
+func VerifTreeRun(scores []float64, del []int) []string {
+	z := NewSortedSet()
+	var inv []string
+	for i, sc := range scores {
+		z.Insert(&SortedSetNode{Names: map[string]struct{}{fmt.Sprintf("m%d", i): {}}, Score: sc})
+		if _, inv = verifZSet("t", z, inv); len(inv) > 0 {
+			return append(inv, fmt.Sprintf("after inserting #%d (score %v)", i, sc))
+		}
+	}
+	for _, d := range del {
+		z.Delete(fmt.Sprintf("m%d", d))
+		_, inv = verifZSet("t", z, inv)
+		// an emptied tree is fine here (the executor removes the key)
+		var real []string
+		for _, s := range inv {
+			if len(s) < 15 || s[:15] != "empty-container" {
+				real = append(real, s)
+			}
+		}
+		inv = real
+		if len(inv) > 0 {
+			return append(inv, fmt.Sprintf("after deleting m%d", d))
+		}
+		if z.GetByName(fmt.Sprintf("m%d", d)) != nil {
+			return []string{fmt.Sprintf("zset-dict: deleted member m%d still indexed", d)}
+		}
+	}
+	return nil
+}
